@@ -23,7 +23,7 @@
 From Coq Require Import String List ZArith NArith Bool.
 Import ListNotations.
 From Selfies Require Import Base Generated Atoms Grammar Decoder PySet Matching Smiles Kekulize Encoder
-  IndexSpec IndexCode Reader RoundTrip EncoderFacts PureFacts AlphaClosure WriterAtoms EncHyp EncShape EncAtoms EncGood EncDecodes EncStd EncRows EncSize.
+  IndexSpec IndexCode Reader RoundTrip EncoderFacts PureFacts AlphaClosure WriterAtoms EncHyp EncShape EncAtoms EncGood EncDecodes EncStd EncRows EncSize EncStd2.
 Local Open Scope string_scope.
 
 Theorem C10_suffix_partial : forall n syms,
@@ -90,6 +90,11 @@ Theorem C10_standard_spellings : forall el p q pre, In el elements -> In (p, q) 
   exists a, smiles_to_atom (br pre p el) = Ok (Some a) /\ smiles_to_atom (br pre q el) = Ok (Some a).
 Proof. exact standard_spellings. Qed.
 
+(* ... and therefore the same SELFIES string, under every table *)
+Theorem C10_standard_spellings_same_string : forall T el p q pre, In el elements -> In (p, q) spelling_pairs -> In pre [""; "13"] ->
+  exists x m1 m2, encoder T (br pre p el) false false = Ok (x, m1) /\ encoder T (br pre q el) false false = Ok (x, m2).
+Proof. exact standard_spellings_encoder. Qed.
+
 Print Assumptions C10_suffix_partial.
 Print Assumptions C10_Q_symbols_decode_back_partial.
 Print Assumptions C10_encoder_output_decodes_partial.
@@ -98,3 +103,4 @@ Print Assumptions C10_symbol_determines_atom.
 Print Assumptions C10_printed_symbol_reads_back.
 Print Assumptions C10_standard_spellings.
 Print Assumptions C10_encoder_output_decodes_sized_partial.
+Print Assumptions C10_standard_spellings_same_string.
